@@ -645,7 +645,6 @@ def judge_project(p, out, stats, nontrivial):
                     fails.append(dict(where, clause="token-boundary",
                                       why="the label does not start at the start and end at the end of a token of the original text"))
                     bad_report = True
-                    continue
                 # the construct
                 rel = os.path.relpath(path, p["dir"])
                 if rel in spans and any(d.get("support") and d["start"] <= s and e <= d["end"] for d in spans[rel] if d["kind"] == "def"):
@@ -981,6 +980,9 @@ def run(ctx, proofs):
         "exotic_scalar_outcomes": {k[15:]: v for k, v in stats.items() if k.startswith("exotic_outcome:")},
         "trivia_inserted": {k[7:]: v for k, v in stats.items() if k.startswith("trivia:")},
         "generator_features": dict(features),
+        "exotic_note": "files that begin with a byte order mark (also BOM + CRLF, BOM in the included file), NBSP / U+2028 / U+3000 / "
+                       "ZWSP at offset 0, and one such scalar (also U+2003, U+0085, U+FEFF) between two tokens; the unchanged tool "
+                       "rejects U+FEFF and U+200B with `Invalid token found.` at their first byte and skips the Unicode White_Space ones",
         "panics_in_process": stats["panics_in_process"],
         "failing_projects": len(failing),
         "failures_by_clause": dict(by_clause),
